@@ -209,9 +209,21 @@ fn world_cfg_for(property: &str, rng: &mut SimRng, quick: bool) -> WorldCfg {
 			cfg.branches = rng.range(1, 4) as usize;
 		}
 		"C02" => {
-			cfg.tx_pct = 90;
-			cfg.max_txs = 3;
-			cfg.branches = rng.range(2, 4) as usize;
+			if rng.chance(1, 4) {
+				// long chain: compaction and a reorg of the block that was head when it ran
+				cfg.trunk = rng.range(88, 94);
+				cfg.tx_pct = 45;
+				cfg.max_txs = 2;
+				cfg.nrd = false;
+				cfg.branches = 1;
+				cfg.max_branch_depth = rng.range(1, 4);
+				cfg.fork_near_tip = 8;
+				cfg.sibling_bias = true;
+			} else {
+				cfg.tx_pct = 90;
+				cfg.max_txs = 3;
+				cfg.branches = rng.range(2, 4) as usize;
+			}
 		}
 		"C01" => {
 			cfg.tx_pct = 85;
@@ -242,13 +254,15 @@ fn world_cfg_for(property: &str, rng: &mut SimRng, quick: bool) -> WorldCfg {
 		}
 		"C08" => {
 			// long enough for Chain::compact to act (head >= tail + horizon 20 + 60)
-			cfg.trunk = rng.range(84, 94);
-			cfg.tx_pct = 25;
+			cfg.trunk = rng.range(88, 96);
+			cfg.tx_pct = 45;
 			cfg.max_txs = 2;
 			cfg.nrd = false;
 			cfg.branches = rng.range(1, 2) as usize;
 			cfg.max_branch_depth = rng.range(1, 5);
 			cfg.fork_near_tip = 8;
+			cfg.sibling_bias = true;
+			cfg.reorg_pct = 80;
 		}
 		_ => {}
 	}
@@ -339,7 +353,12 @@ pub fn build_world(property: &str, tier: &str, seed: u64) -> Result<World, Strin
 	let mut w = World::new(seed, cfg, &format!("{}-w", property));
 	w.generate_tree()?;
 	let (kinds, per) = bad_kinds_for(property, &mut r);
-	w.gen_bad(&kinds, per);
+	if w.cfg.trunk < 85 {
+		w.gen_bad(&kinds, per);
+	}
+	if property == "C08" || (property == "C02" && w.cfg.trunk >= 85) {
+		build_compaction_reorg_scenario(&mut w);
+	}
 	Ok(w)
 }
 
@@ -347,6 +366,7 @@ fn schedules_per_world(property: &str, quick: bool) -> u64 {
 	match (property, quick) {
 		("C08", true) => 3,
 		("C08", false) => 10,
+		("C02", true) => 5,
 		(_, true) => 6,
 		(_, false) => 20,
 	}
@@ -375,6 +395,12 @@ pub fn chainsim_case(property: &str, tier: &str, seed: u64, case: u64) -> CaseRe
 		}
 	};
 	let mut world = world;
+	// C08/C02 long chains: an explicit "compact while the head spends an old output whose sibling is
+	// already spent, then reorganise that head away" scenario, built on top of the generated tree
+	let scenario_ops: Option<Vec<Op>> = compaction_reorg_ops(&world);
+	if scenario_ops.is_some() {
+		res.probe("compaction_reorg_scenario_built");
+	}
 	if property == "C04" {
 		match check_retarget(&world) {
 			Ok(n) => res.probe_n("retarget_headers_checked", n),
@@ -415,17 +441,30 @@ pub fn chainsim_case(property: &str, tier: &str, seed: u64, case: u64) -> CaseRe
 		if uses_twin(property) {
 			scfg.n_nodes = 1;
 		}
-		if property == "C08" {
+		if property == "C08" || (property == "C02" && world.cfg.trunk >= 85) {
 			scfg.n_nodes = 1;
 			scfg.headers_first = true;
 			scfg.shuffle_window = *rr.pick(&[1usize, 3, 6]);
-			scfg.compact_pct = *rr.pick(&[3u64, 6, 10]);
+			if rr.chance(2, 3) {
+				// one compaction while the head is a block the later reorg will rewind
+				scfg.compact_once_near_tip = true;
+				scfg.compact_pct = 0;
+				scfg.shuffle_window = 1;
+			} else {
+				scfg.compact_pct = *rr.pick(&[3u64, 6, 10]);
+			}
 			scfg.restart_pct = *rr.pick(&[0u64, 3, 6]);
 			scfg.validate_pct = 1;
 			scfg.dup_pct = *rr.pick(&[0u64, 5]);
 		}
 		let twin = uses_twin(property);
-		let (ops, reorders) = chainsim::gen_schedule(&world, &scfg, &mut rr);
+		let (mut ops, reorders) = chainsim::gen_schedule(&world, &scfg, &mut rr);
+		if run == 0 {
+			if let Some(so) = &scenario_ops {
+				ops = so.clone();
+				scfg.n_nodes = 1;
+			}
+		}
 		let out = chainsim::run_ops(
 			&world,
 			property,
@@ -463,6 +502,76 @@ pub fn chainsim_case(property: &str, tier: &str, seed: u64, case: u64) -> CaseRe
 	world.cleanup();
 	res.wall_s = t0.elapsed().as_secs_f64();
 	res
+}
+
+/// Adds to the world: H (on the most-work tip, spending an old output whose MMR sibling is already
+/// spent) and a competing branch from the same parent that overtakes H. Recorded in
+/// `world.scenario` as [H, F1, F2, ..].
+fn build_compaction_reorg_scenario(world: &mut World) {
+	let mut base = world.winner();
+	if world.blocks[base].height < 82 {
+		return;
+	}
+	// make sure a half-spent old pair exists: G spends one leaf of an old pair whose other leaf is alive
+	// (the spend of the first leaf has to be older than the horizon when compaction runs: spends inside
+	// the rewindable window are protected from compaction)
+	if let Some(g) = world.extend_with_spend(base, "pair-starting", 0) {
+		base = g;
+		for _ in 0..(global_horizon() + 1) {
+			base = match world.extend_empty(base, 0) {
+				Ok(x) => x,
+				Err(_) => return,
+			};
+		}
+	}
+	let n_before = world.blocks.len();
+	let h = match world.extend_with_spend(base, "pair-completing", 0).or_else(|| world.extend_with_spend(base, "any", 0)) {
+		Some(h) => h,
+		None => return,
+	};
+	let mut fork = vec![];
+	let mut f = base;
+	let mut guard = 0;
+	while (fork.is_empty() || world.blocks[f].total_difficulty <= world.blocks[h].total_difficulty) && guard < 6 {
+		f = match world.extend_empty(f, 7) {
+			Ok(x) => x,
+			Err(_) => return,
+		};
+		fork.push(f);
+		guard += 1;
+	}
+	if world.blocks[f].total_difficulty <= world.blocks[h].total_difficulty {
+		return;
+	}
+	let mut sc = vec![n_before, h];
+	sc.extend(fork);
+	world.scenario = sc;
+}
+
+fn global_horizon() -> u64 {
+	grin_core::global::cut_through_horizon() as u64
+}
+
+/// Ops of the scenario: the generated tree parents first, H, compact, restart, the fork, validate.
+fn compaction_reorg_ops(world: &World) -> Option<Vec<Op>> {
+	if world.scenario.len() < 3 {
+		return None;
+	}
+	let n_before = world.scenario[0];
+	let mut ops: Vec<Op> = vec![];
+	let mut order: Vec<usize> = (1..n_before).collect();
+	order.sort_by_key(|i| (world.blocks[*i].height, *i));
+	for id in &order {
+		ops.push(Op::Block { node: 0, id: *id });
+	}
+	ops.push(Op::Block { node: 0, id: world.scenario[1] });
+	ops.push(Op::Compact { node: 0 });
+	ops.push(Op::Restart { node: 0 });
+	for id in &world.scenario[2..] {
+		ops.push(Op::Block { node: 0, id: *id });
+	}
+	ops.push(Op::Validate { node: 0, fast: false });
+	Some(ops)
 }
 
 /// C04 in-run invariant: for every honest header the network difficulty (and secondary scaling
